@@ -84,7 +84,9 @@ def check_ref(**over):
     f = dict(groupby=T.Const(None), groups=T.Const(None), ignore_na=T.Bool, element_wise=T.Bool,
              n_failure_cases=T.Opt(T.Nat), raise_warning=T.Bool, name=T.Any)
     f.update(over)
-    return T.Ref(None, **f)
+    from pandera.api.checks import Check
+
+    return T.Ref(Check, **f)  # the real class: methods such as is_builtin_check are read from the live source
 
 
 def backend(**over):
@@ -457,5 +459,49 @@ class PolarsRunCheck(RunCheck):
             out["row_wise_output_reported_for_drop_invalid_rows"] = isinstance(result.attrs.get("check_output"), PolarsLazy)
         return out
 
+
+def _apply_field_standin(seed=0, tier="quick"):
+    """run-time contract on the real apply_field: its output equals the check function's own output on the object (vectorised) /
+    the mapped output (element-wise) - for every built-in check with representative arguments and custom checks, on empty, all-null,
+    mixed and plain series"""
+    import warnings
+
+    import numpy as np
+    import pandas as pd
+    import pandera as pa
+    from pandera.backends.pandas.checks import PandasCheckBackend
+
+    warnings.simplefilter("ignore")
+    num = [pd.Series([], dtype=float), pd.Series([np.nan, np.nan]), pd.Series([1.0, 2.0, np.nan]), pd.Series([3.0, -1.0])]
+    txt = [pd.Series([], dtype=object), pd.Series([None, None], dtype=object), pd.Series(["ab", "b", None], dtype=object), pd.Series(["x"], dtype=object)]
+    checks = [(pa.Check.gt(0), num), (pa.Check.ge(1), num), (pa.Check.lt(2), num), (pa.Check.le(2), num), (pa.Check.eq(1), num), (pa.Check.ne(1), num),
+              (pa.Check.in_range(0, 2), num), (pa.Check.isin([1.0, 2.0]), num), (pa.Check.notin([1.0]), num), (pa.Check.unique_values_eq([1.0, 2.0]), num),
+              (pa.Check.str_matches("a"), txt[2:]), (pa.Check.str_contains("b"), txt[2:]), (pa.Check.str_startswith("a"), txt[2:]), (pa.Check.str_endswith("b"), txt[2:]),
+              (pa.Check.str_length(1, 2), txt[2:]), (pa.Check.isin(["ab"]), txt), (pa.Check.unique_values_eq(["x"]), txt),
+              (pa.Check(lambda s: s > 0), num), (pa.Check(lambda s: bool(len(s))), num), (pa.Check(lambda x: x > 0, element_wise=True), num)]
+    n = 0
+    bound = f"{len(checks)} checks (all built-in families + custom vectorised / scalar-output / element-wise) x 2-4 series each (empty, all-null, mixed, plain)"
+    same = lambda a, b: (a.equals(b) if hasattr(a, "equals") else a == b) if type(a) is type(b) else False  # noqa: E731
+    for chk, series in checks:
+        for s in series:
+            for drop in (False, True):
+                obj = s.dropna() if drop else s
+                n += 1
+                be = PandasCheckBackend(chk)
+                try:
+                    want = obj.map(be.check_fn) if chk.element_wise else be.check_fn(obj)
+                except Exception as e:  # noqa: BLE001
+                    want = ("raises", type(e).__name__)
+                try:
+                    got = be.apply_field(obj)
+                except Exception as e:  # noqa: BLE001
+                    got = ("raises", type(e).__name__)
+                if not (same(got, want) or (isinstance(got, (bool, np.bool_)) and isinstance(want, (bool, np.bool_)) and bool(got) == bool(want))):
+                    return {"examples": n, "bound": bound, "failing_input": {"check": str(chk), "series": obj.tolist()},
+                            "observed": {"apply_field": repr(got)[:120], "the check function itself": repr(want)[:120]}}
+    return {"examples": n, "bound": bound, "failing_input": None}
+
+
+ApplyField.bounded_standin = staticmethod(_apply_field_standin)
 
 CONTRACTS = ALIASES + [PreprocessField, ApplyField, PostprocessField, PostprocessBool, RunCheck, PolarsRunCheck]
